@@ -426,6 +426,68 @@ def r8_r10_driver(ck):
     thr = [bb for bb, blk in enumerate(it.blocks) if blk["term"]["k"] == "switch" and not blk.get("cleanup") and
            any(_cmp(tb.operand(blk["term"]["discr"]), op) and any(_eval_const(y) is not None for y in _cmp(tb.operand(blk["term"]["discr"]), op)) for op in ("ge", "gt", "le", "lt"))]
     ck.req(len(thr) == stops, "R10.only_mate_stops", "analyze_iterative", it.where(), "the deepening loop compares the value with a threshold other than POS_INF (%d comparisons)" % len(thr))
+    # R10.loop_exits: every way out of the deepening loop is one of: depth range exhausted, mate value reached, search
+    # interrupted (the workers' Result is Err), root without a line (empty iter_moves).  Any other exit condition stops
+    # deepening before the requested depth without a winning terminal value in hand.
+    from .c04 import is_iter_next, line_empty_test
+    heads = [bb for bb, t in live_calls(it) if is_iter_next(callee_name(t)) and "Range" in callee_name(t)]
+    if len(heads) != 1:
+        ck.fail("R10.loop_exits", "analyze_iterative", it.where(), "expected one deepening loop over a depth range, found %d" % len(heads))
+        return
+    head = heads[0]
+    succ = it.successors()
+    from_head = cfg.reachable(it, [head])
+    loop = {bb for bb in from_head if not it.blocks[bb].get("cleanup") and head in cfg.reachable(it, [bb])}
+    loop.add(head)
+    next_dest = it.blocks[head]["term"]["dest"]["l"]
+    n_exit = 0
+    for bb in sorted(loop):
+        blk = it.blocks[bb]
+        t = blk["term"]
+        outs = [s for s in succ[bb] if s not in loop and not it.blocks[s].get("cleanup") and not _dead_end(it, s)]
+        if not outs:
+            continue
+        n_exit += 1
+        if t["k"] != "switch":
+            ck.fail("R10.loop_exits", "bb%d" % bb, it.where(t.get("line")), "the deepening loop is left by a %s terminator" % t["k"])
+            continue
+        c = tb.operand(t["discr"])
+        while c[0] == "un" and c[1] == "Not":
+            c = c[2]
+        kind = None
+        if c[0] == "discr":
+            inner = c[1]
+            if inner[0] == "call" and is_iter_next(inner[1]) and "Range" in inner[1]:
+                kind = "range exhausted"
+            elif inner[0] == "local" and inner[1] == next_dest:
+                kind = "range exhausted"
+            elif _is_results(it, tb, inner):
+                kind = "search interrupted"
+        ab = _cmp(c, "ge")
+        if ab and _eval_const(ab[1]) is not None and _eval_const(ab[1]) == pos_inf:
+            kind = "mate value"
+        if line_empty_test(tb.operand(t["discr"])) is not None:
+            kind = "root without a line"
+        ck.req(kind is not None, "R10.loop_exits", "exit on %s" % show(c)[:60], it.where(t.get("line")),
+               "the deepening loop can stop on a condition that is neither the depth limit, a mate value, an interrupt nor a root without moves: %s" % show(c)[:100])
+    ck.floor("R10.loop_exits", n_exit, 3, "exits of the deepening loop")
+
+
+def _dead_end(body, bb):
+    """Every path from bb ends in a diverging terminator (panic path), never in return."""
+    for x in cfg.reachable(body, [bb]):
+        if body.blocks[x]["term"]["k"] == "return":
+            return False
+    return True
+
+
+def _is_results(it, tb, t):
+    """t denotes the collected Result of the workers (type Result<Vec<..>, SearchInterrupt>)."""
+    if t[0] == "local":
+        return "SearchInterrupt" in it.locals[t[1]]["ty"] and "Result" in it.locals[t[1]]["ty"]
+    if t[0] == "call":
+        return "rayon" in t[1] or any(x[0] == "call" and "rayon" in x[1] for x in walk(t))
+    return False
 
 
 def _eval_const(t):
